@@ -51,10 +51,78 @@ theorem drainN_reach (S : CSpec) (n : Nat) : ∀ (g g' : CSt), CReach S g → dr
             simp only [he] at h
             exact ih g1 g' (CReach.step hr (eff1_sound S g g1 he)) h
 
+theorem deliver1_sound (S : CSpec) (pick : St → Bool) (g g' : CSt) (h : deliver1 S pick g = some g') :
+    CStep S g g' := by
+  simp only [deliver1] at h
+  split at h
+  · cases h
+  · rename_i e rest hin
+    by_cases hm : (allMsgs S.DX).contains e.2 = true
+    · have hm' : e.2 ∈ allMsgs S.DX := by simpa using hm
+      simp only [hm, if_true] at h
+      by_cases hc : (!e.1 && S.isStart e.2) = true
+      · have hc' : e.1 = false ∧ S.isStart e.2 = true := by simpa using hc
+        simp only [hc, if_true] at h
+        by_cases hidle : g.todo.isEmpty = true
+        · simp only [hidle, if_true] at h
+          have hidle' : g.todo = [] := by simpa using hidle
+          by_cases hal : S.allowed.contains g.m.leaf = true
+          · simp only [hal, if_true] at h
+            cases hf : (step S.DX g.x e.2).find? pick with
+            | none => simp [hf] at h
+            | some x' =>
+                simp only [hf, Option.map_some, Option.some.injEq] at h
+                subst h
+                refine CStep.deliver g e rest x' hin hm' ?_
+                rw [if_pos hc', if_pos hal]
+                exact ⟨hidle', List.mem_of_find?_eq_some hf⟩
+          · simp only [hal, Bool.false_eq_true, if_false, Option.some.injEq] at h
+            subst h
+            have : CStep S g { g with x := g.x, inbox := rest } := by
+              refine CStep.deliver g e rest g.x hin hm' ?_
+              rw [if_pos hc', if_neg hal]
+              exact ⟨hidle', rfl⟩
+            exact this
+        · simp only [hidle, Bool.false_eq_true, if_false] at h
+          cases h
+      · have hc' : ¬(e.1 = false ∧ S.isStart e.2 = true) := by simpa using hc
+        simp only [hc, Bool.false_eq_true, if_false] at h
+        cases hf : (step S.DX g.x e.2).find? pick with
+        | none => simp [hf] at h
+        | some x' =>
+            simp only [hf, Option.map_some, Option.some.injEq] at h
+            subst h
+            refine CStep.deliver g e rest x' hin hm' ?_
+            rw [if_neg hc']
+            exact List.mem_of_find?_eq_some hf
+    · simp only [hm, Bool.false_eq_true, if_false] at h
+      cases h
+
+theorem serveN_reach (S : CSpec) (pick : St → Bool) (n : Nat) :
+    ∀ (g g' : CSt), CReach S g → serveN S pick n g = some g' → CReach S g' := by
+  induction n with
+  | zero =>
+      intro g g' hr h
+      simp only [serveN, Option.some.injEq] at h
+      subst h; exact hr
+  | succ n ih =>
+      intro g g' hr h
+      simp only [serveN] at h
+      split at h
+      · simp only [Option.some.injEq] at h
+        subst h; exact hr
+      · cases he : deliver1 S pick g with
+        | none => simp [he] at h
+        | some g1 =>
+            simp only [he] at h
+            exact ih g1 g' (CReach.step hr (deliver1_sound S pick g g1 he)) h
+
 theorem act_reach (S : CSpec) (g g' : CSt) (a : Act) (hr : CReach S g) (h : act S g a = some g') : CReach S g' := by
   cases a with
   | drain => exact drainN_reach S _ g g' hr h
   | eff => exact CReach.step hr (eff1_sound S g g' h)
+  | deliver pick => exact CReach.step hr (deliver1_sound S pick g g' h)
+  | serve pick => exact serveN_reach S pick _ g g' hr h
   | master msg pick =>
       refine CReach.step hr ?_
       simp only [act] at h
@@ -87,52 +155,6 @@ theorem act_reach (S : CSpec) (g g' : CSt) (a : Act) (hr : CReach S g) (h : act 
         subst h
         exact CStep.other g m (by simpa using hc)
       · cases h
-  | deliver pick =>
-      refine CReach.step hr ?_
-      simp only [act] at h
-      split at h
-      · cases h
-      · rename_i e rest hin
-        by_cases hm : (allMsgs S.DX).contains e.2 = true
-        · have hm' : e.2 ∈ allMsgs S.DX := by simpa using hm
-          simp only [hm, if_true] at h
-          by_cases hc : (!e.1 && S.isStart e.2) = true
-          · have hc' : e.1 = false ∧ S.isStart e.2 = true := by simpa using hc
-            simp only [hc, if_true] at h
-            by_cases hidle : g.todo.isEmpty = true
-            · simp only [hidle, if_true] at h
-              have hidle' : g.todo = [] := by simpa using hidle
-              by_cases hal : S.allowed.contains g.m.leaf = true
-              · simp only [hal, if_true] at h
-                cases hf : (step S.DX g.x e.2).find? pick with
-                | none => simp [hf] at h
-                | some x' =>
-                    simp only [hf, Option.map_some, Option.some.injEq] at h
-                    subst h
-                    refine CStep.deliver g e rest x' hin hm' ?_
-                    rw [if_pos hc', if_pos hal]
-                    exact ⟨hidle', List.mem_of_find?_eq_some hf⟩
-              · simp only [hal, Bool.false_eq_true, if_false, Option.some.injEq] at h
-                subst h
-                have : CStep S g { g with x := g.x, inbox := rest } := by
-                  refine CStep.deliver g e rest g.x hin hm' ?_
-                  rw [if_pos hc', if_neg hal]
-                  exact ⟨hidle', rfl⟩
-                exact this
-            · simp only [hidle, Bool.false_eq_true, if_false] at h
-              cases h
-          · have hc' : ¬(e.1 = false ∧ S.isStart e.2 = true) := by simpa using hc
-            simp only [hc, Bool.false_eq_true, if_false] at h
-            cases hf : (step S.DX g.x e.2).find? pick with
-            | none => simp [hf] at h
-            | some x' =>
-                simp only [hf, Option.map_some, Option.some.injEq] at h
-                subst h
-                refine CStep.deliver g e rest x' hin hm' ?_
-                rw [if_neg hc']
-                exact List.mem_of_find?_eq_some hf
-        · simp only [hm, Bool.false_eq_true, if_false] at h
-          cases h
 
 theorem run_sound (S : CSpec) (as : List Act) : ∀ (g g' : CSt), CReach S g → run S as g = some g' → CReach S g' := by
   induction as with
